@@ -209,7 +209,7 @@ def scope(ctx, R):
     return sites
 
 
-SCOPE_FILES = ('src/v1/mod.rs', 'src/v1/model.rs', 'src/v1/error.rs', 'src/v2/mod.rs', 'src/v2/model.rs', 'src/v2/error.rs', 'src/lib.rs', 'src/ip.rs')
+BUILDER_FILE = 'src/v2/builder.rs'
 
 
 def scope_completeness(ctx, R):
@@ -229,8 +229,9 @@ def scope_completeness(ctx, R):
     for f in ctx.fx.raw['fns']:
         if f.get('exp') or f.get('impl_derived') or f.get('impl_exp') or f.get('kind') == 'Closure':
             continue
-        if not any(f.get('span', '').startswith(x + ':') for x in SCOPE_FILES):
-            continue
+        sp = f.get('span', '')
+        if not sp.startswith('src/') or sp.startswith(BUILDER_FILE + ':'):
+            continue        # every source file except the builder's (new files created by moving code are in scope)
         if tys.strip_lifetimes(f.get('impl_trait') or '').startswith('v2::builder::'):
             continue            # encoders living in builder.rs are the builder's scope (C20)
         p = f['path']
